@@ -180,7 +180,19 @@ def scan_sources():
                     bad.append(f"{fn}:{ln}: {w}")
     return bad
 
-def audit_property(prop_id):
+def coqchk_property(prop_id, timeout=1500):
+    """Independent re-check of the compiled property file and everything it depends on; returns
+    (ok, axiom_listing). Thorough tier only (takes a minute or more)."""
+    try:
+        r = subprocess.run(["coqchk", "-silent", "-o", "-Q", THEORIES, "Puan", f"Puan.Properties.{prop_id}"],
+                           capture_output=True, text=True, timeout=timeout, cwd=COQ)
+    except subprocess.TimeoutExpired:
+        return False, "coqchk timed out"
+    out = r.stdout + r.stderr
+    m = re.search(r"CONTEXT SUMMARY.*", out, flags=re.S)
+    return r.returncode == 0, (m.group(0) if m else out)[-3000:]
+
+def audit_property(prop_id, tier="quick"):
     """Re-compile Properties/<id>.v and read its Print Assumptions output.
     Returns dict(obligations, discharged, theorems, problems)."""
     path = os.path.join(THEORIES, "Properties", prop_id + ".v")
@@ -214,6 +226,19 @@ def audit_property(prop_id):
     if bad:
         res["problems"].append("forbidden vernacular: " + ", ".join(bad[:10]))
         res["discharged"] = 0
+    if tier == "thorough" and os.environ.get("VERIF_NO_COQCHK") != "1":
+        t0 = time.time()
+        ok, listing = coqchk_property(prop_id)
+        res["coqchk_s"] = round(time.time() - t0, 1)
+        res["coqchk"] = listing
+        if not ok:
+            res["problems"].append("coqchk rejected the compiled development: " + listing[-800:])
+        else:
+            ax = re.search(r"\* Axioms:\s*(.*?)(?:\n\s*\*|\Z)", listing, flags=re.S)
+            axioms = [a.strip() for a in (ax.group(1).split("\n") if ax else []) if a.strip() and "<none>" not in a]
+            res["coqchk_axioms"] = axioms
+            if axioms:
+                res["problems"].append("coqchk lists axioms: " + "; ".join(axioms)[:600])
     return res
 
 # ----------------------------------------------------------------------------- findings
@@ -294,6 +319,7 @@ class Result:
                 "traces_validated_against_impl": self.corr_cases,
                 "input_distribution": dict(sorted(self.dist.items())),
                 "known_findings_witnessed": sorted(self.known),
+                "coqchk": {k: a.get(k) for k in ("coqchk_s", "coqchk_axioms", "coqchk") if k in a},
                 "exhaustive": self.exhaustive,
                 "notes": self.notes,
             },
